@@ -201,7 +201,12 @@ void do_pid(const std::vector<std::string>& tok) {
   std::string err;
   nwarn = 0;
   mjModel* m = build_pid(c, &err);
-  if (!m) { printf("compile-error %s\n", err.c_str()); return; }
+  if (!m) {
+    // mj_compile makes an mjData internally: a configuration refused by Pid::Create surfaces here
+    if (err.find("plugin->init failed") != std::string::npos) { printf("create-failed\n"); return; }
+    for (char& ch : err) if (ch == '\n' || ch == '\r') ch = ' ';
+    printf("compile-error %s\n", err.c_str()); return;
+  }
   in_makedata = 1;
   mjData* d = mj_makeData(m);   // plugin init failure raises an engine error: reported as "create-failed"
   in_makedata = 0;
@@ -341,7 +346,7 @@ void do_cable(const std::vector<std::string>& tok) {
   if (verify && tok.size() - bar - 1 != (size_t)(17 * c.n)) { printf("bad-op\n"); return; }
   std::string err;
   mjModel* m = build_cable(c, &err);
-  if (!m) { printf("compile-error %s\n", err.c_str()); return; }
+  if (!m) { for (char& ch : err) if (ch == '\n' || ch == '\r') ch = ' '; printf("compile-error %s\n", err.c_str()); return; }
   mjData* d = mj_makeData(m);
   // the cable bodies are those with the plugin: consecutive ids from i0
   int inst = -1, i0 = -1;
